@@ -259,3 +259,22 @@ CHECKS["C20"] = {
                     "formatted content (digits, padding) is not asserted; the property is about totality and memory safety",
                     "the harness #includes src/static.c to reset the static option table between in-process cases"],
 }
+
+VARIANTS["ovr"] = {"custom": True}
+CHECKS["C19"] = {
+    "custom_run": True, "level": "exploration",
+    "rule": "cases = tuples (allocating entry point A, size/alignment, optional resize R, releasing entry point F) executed by a program that does not link mimalloc's API, in four configurations: "
+            "{C, C++} x {LD_PRELOAD=libmimalloc.so, mimalloc.o linked first}, both artefacts built by cmake from the current tree like the repository's own build. A in {malloc, calloc, "
+            "realloc(NULL), posix_memalign, aligned_alloc, memalign, valloc, pvalloc, reallocarray(NULL), strdup, strndup, realpath(.,NULL), operator new / new[] (plain, nothrow, align_val_t, "
+            "align_val_t+nothrow), std::vector and std::string buffers}; R in {none, realloc grow, realloc shrink, reallocarray}; F in {free, cfree, realloc-then-free, operator delete / delete[] "
+            "(plain, sized, align_val_t, sized+align_val_t, nothrow)}. The full A x F matrix is enumerated for 12 size representatives (0 B .. 40 MB), then tuples are generated. Oracle: every "
+            "result satisfies mi_is_in_heap_region (looked up with dlsym), malloc_usable_size == mi_usable_size >= n, the alignment the standard prescribes, calloc memory is zero, contents survive "
+            "the resize, a further malloc works after the release, posix_memalign returns EINVAL/ENOMEM without touching its out-parameter, reallocarray/calloc overflow -> NULL (errno ENOMEM), "
+            "nothrow new of an impossible size -> NULL, and the process exits 0; plus three system programs (ls -lR, a python3 JSON round trip, sort -n on 20 000 generated numbers) must produce "
+            "byte-identical output with and without the preload. Non-trivial = A and F belong to different API families (C vs C++) or the resize moved the block. Tuples are distinct by "
+            "construction in the matrix part; generated tuples are counted as executed.",
+    "runs": [{"variant": "ovr"}],
+    "timeout_s": {"quick": 900, "thorough": 7200},
+    "assumptions": ["glibc on Linux x86-64: only the entry points this libc declares are enumerated (cfree / reallocarray looked up with dlsym)",
+                    "the throwing operator new with an impossible size is not generated: the C-compiled library documents abort() when no new-handler is installed"],
+}
